@@ -53,7 +53,7 @@ Expand(sc, id, bv, es, i) ==
 Ex(sc, id, bv, es) == Expand(sc, id, bv, es, 1)
 
 \* canonical spelling of the paths the grammar uses
-CanonS(p) == CASE p = "./a" -> "a" [] p = "./s" -> "s" [] p = "d/../b" -> "b" [] p = "c//" -> "c" [] p = "./d/./e" -> "d/e" [] OTHER -> p
+CanonS(p) == CASE p = "./a" -> "a" [] p = "./s" -> "s" [] p = "c/" -> "c" [] p = "a/." -> "a" [] p = "b/c/.." -> "b" [] p = "d/../b" -> "b" [] p = "c//" -> "c" [] p = "./d/./e" -> "d/e" [] OTHER -> p
 
 Fn(binds) == [n \in {binds[i].name : i \in DOMAIN binds} |-> binds[CHOOSE i \in DOMAIN binds : binds[i].name = n /\ \A j \in DOMAIN binds : binds[j].name = n => j <= i].val]
 
@@ -192,7 +192,7 @@ Render(files) == [f \in DOMAIN files |-> RFile(files[f])]
 (* The bounded grammar.                                                     *)
 (***************************************************************************)
 Vals == {<<T("1")>>, <<T("2")>>, <<Var("x")>>, <<Var("y"), T("z")>>, <<T("$")>>, <<T("a b")>>, <<Var("in"), T("-"), Var("x")>>, <<>>}
-Paths == {<<T("a")>>, <<T("b")>>, <<T("c")>>, <<T("./a")>>, <<T("d/../b")>>, <<Var("x")>>, <<T("o"), Var("y")>>, <<T("x:y")>>}
+Paths == {<<T("a")>>, <<T("b")>>, <<T("c")>>, <<T("./a")>>, <<T("d/../b")>>, <<Var("x")>>, <<T("o"), Var("y")>>, <<T("x:y")>>, <<T("c/")>>, <<T("a/.")>>, <<T("b/c/..")>>}
 CmdVals == {<<T("cc "), Var("in"), T(" > "), Var("out")>>, <<T("run "), Var("x")>>, <<T("c "), Var("y"), T(" "), Var("flags")>>, <<Var("x"), Var("x")>>}
 RuleForms ==
   {Rule(n, <<Bd("command", c)>>) : n \in {"r", "q"}, c \in CmdVals}
@@ -211,7 +211,7 @@ BuildForms ==
   \cup {Build(<<<<T("a")>>>>, <<>>, "phony", <<<<T("b")>>>>, <<>>, <<<<T("a")>>>>, <<>>, <<>>),       \* legacy self reference, order-only position
         Build(<<<<T("a")>>>>, <<>>, "phony", <<<<T("a")>>, <<T("b")>>>>, <<>>, <<<<T("c")>>>>, <<>>, <<>>),
         Build(<<<<T("a")>>, <<T("a")>>>>, <<>>, "r", <<<<T("s")>>>>, <<>>, <<>>, <<>>, <<>>)}             \* same output twice
-OtherForms == {Default(<<p>>) : p \in {<<T("a")>>, <<T("zz")>>, <<Var("x")>>}} \cup {Pool("p", d) : d \in {<<T("2")>>, <<Var("x")>>, <<T("-1")>>}} \cup {Pool("console", <<T("1")>>)}
+OtherForms == {Default(<<p>>) : p \in {<<T("a")>>, <<T("zz")>>, <<Var("x")>>, <<T("a/.")>>, <<T("c/")>>}} \cup {Pool("p", d) : d \in {<<T("2")>>, <<Var("x")>>, <<T("-1")>>}} \cup {Pool("console", <<T("1")>>)}
                 \cup {Include("inc.ninja"), Subninja("inc.ninja"), Include("missing.ninja")}
 Forms == RuleForms \cup LetForms \cup BuildForms \cup OtherForms
 IncForms == LetForms \cup RuleForms \cup {Build(<<<<T("i"), Var("x")>>>>, <<>>, r, <<<<T("s")>>>>, <<>>, <<>>, <<>>, <<>>) : r \in {"r", "q"}}
